@@ -75,6 +75,11 @@ where
     loop {
       // Poll the stream until exhausted
       let this = self.as_mut().project();
+      // the downstream has ended (e.g. `take(n)`): stop driving the stream
+      if this.observer.as_ref().map_or(true, |o| o.is_finished()) {
+        this.observer.take();
+        break Poll::Ready(NormalReturn::new(()));
+      }
       let next = ready!(this.stream.poll_next(cx));
 
       match next {
